@@ -81,7 +81,7 @@ func concServeMain() {
 					res, same, _ := concRun(u, tasks)
 					hs := make([]string, len(res))
 					for i, r := range res {
-						if r == "timeout" || r == "hang" || r == "panic" || r == "err" {
+						if r == "timeout" || r == "hang" {
 							hs[i] = r
 						} else {
 							hs[i] = shortHash(r)
